@@ -204,6 +204,9 @@ impl DatabaseCheckpoint {
 		// Step 7: Copy VLog directories if enabled
 		let vlog_size = self.copy_vlog_directories(checkpoint_path)?;
 
+		// Step 7b: Copy the version index (it is part of the data when versioning is on)
+		let index_size = self.copy_versioned_index(checkpoint_path)?;
+
 		// Step 8: Create checkpoint metadata
 		let timestamp = SystemTime::now().duration_since(UNIX_EPOCH).unwrap().as_secs();
 
@@ -211,7 +214,7 @@ impl DatabaseCheckpoint {
 			timestamp,
 			sequence_number,
 			sstable_count,
-			sstables_size + manifest_size + vlog_size,
+			sstables_size + manifest_size + vlog_size + index_size,
 		);
 
 		// Step 9: Write metadata file
@@ -370,6 +373,22 @@ impl DatabaseCheckpoint {
 		}
 
 		Ok(total_size)
+	}
+
+	/// Copies the B+tree version index into the checkpoint (synced, under its read lock)
+	fn copy_versioned_index(&self, dest_dir: &Path) -> Result<u64> {
+		let Some(ref index) = self.core.versioned_index else {
+			return Ok(0);
+		};
+		let guard = index.read();
+		guard.close()?;
+		let source = self.core.opts.versioned_index_dir();
+		let dest = dest_dir.join("versioned_index");
+		if source.exists() {
+			copy_dir_all(&source, &dest).map_err(|e| Error::Io(Arc::new(e)))?;
+			return Self::calculate_directory_size(&dest);
+		}
+		Ok(0)
 	}
 
 	/// Calculates the total size of a directory recursively
